@@ -195,6 +195,19 @@ def gen_coords(rng, maxn):
     return {'op': 'coords', 'mask': m, 'j': rng.randint(2, 21), 'scale': scale}
 
 
+def gen_entry(rng, maxn, jmax):
+    """the public entry points with every combination of the optional rho / theta arguments"""
+    r, c = rng.randint(2, maxn), rng.randint(2, maxn)
+    m = asym_support(rng, r, c) if (r >= 3 and c >= 3 and rng.random() < 0.5) else rnd_mask(rng, r, c, values=rng.random() < 0.4)
+    via = rng.choice(['zernike', 'zernike', 'basis', 'basis', 'basis_vec', 'basis_scalar'])
+    n = 1 if via in ('zernike', 'basis_scalar') else rng.randint(1, 5)
+    modes = [rng.randint(1, jmax) if rng.random() < 0.85 else rng.randint(1, 10) for _ in range(n)]
+    if rng.random() < 0.06:
+        modes[rng.randrange(n)] = rng.choice([0, -1, -7])
+    args = rng.choice(['none'] * 6 + ['theta', 'rho', 'both', 'both'])
+    return {'op': 'entry', 'mask': m, 'modes': modes, 'normalize': rng.random() < 0.6, 'args': args, 'via': via}
+
+
 def gen_large(rng, k):
     """>= 2**20 samples, sizes not divisible by powers of two, an off-centre half disc given by parameters"""
     r, c = rng.choice([(1024, 1031), (1049, 1000), (1500, 701), (1027, 1025)])
@@ -320,6 +333,8 @@ def generate(rng, tier):
         yield gen_coords(rng, 7 if quick else 9)
     for k in range(2 if quick else 8):
         yield gen_large(rng, k)
+    for _ in range(70 if quick else 700):
+        yield gen_entry(rng, 6 if quick else 8, 36 if quick else 66)
     # (5) call histories: one mask buffer refilled in place between zernike_basis / zernike_fit calls
     prev = None
     for k in range(45 if quick else 400):
@@ -341,6 +356,8 @@ def json_key(x):
 
 
 def classify(c):
+    if c['op'] == 'entry':
+        return f'entry/{c["via"]}/{c["args"]}'
     if c['op'] == 'history':
         return 'history/' + c['dtype']
     if c['op'] == 'seq':
@@ -360,6 +377,8 @@ def nontrivial(c):
         return c['j'] >= 4 and any(flat) and len(flat) > 1
     if c['op'] in ('gram', 'bound', 'coords_large'):
         return True
+    if c['op'] == 'entry':
+        return c['args'] != 'none' or max(c['modes']) >= 4
     if c['op'] == 'history':
         return len({json_key(c['fills'][s_['fill']]) for s_ in c['steps']}) >= 2
     if c['op'] == 'seq':
@@ -390,6 +409,14 @@ def encode(c):
     if c['op'] == 'coords':
         m = c['mask']
         out = [4, len(m), len(m[0])]
+        for row in m:
+            for v in row:
+                out += C.enc_q(C.frac(v))
+        return out
+    if c['op'] == 'entry':
+        m = c['mask']
+        out = [7, {'none': 0, 'rho': 1, 'theta': 2, 'both': 3}[c['args']], 1 if c['normalize'] else 0, len(c['modes'])] + list(c['modes'])
+        out += [len(m), len(m[0])]
         for row in m:
             for v in row:
                 out += C.enc_q(C.frac(v))
@@ -443,6 +470,23 @@ def read_coords(rd, npts):
 
 
 def decode(c, ints):
+    if c['op'] == 'entry':
+        if ints[0] == 1:
+            return {'err': C.ERRNAMES[ints[1]]}
+        if ints[1] == 0:
+            return {'supplied': True}
+        rd = C.Reader(ints)
+        rd.z()
+        rd.z()
+        m = c['mask']
+        npts = len(m) * len(m[0])
+
+        def one():
+            n2, odd, rm2 = rd.z(), rd.z(), rd.q()
+            return {'norm2': n2, 'odd': odd, 'rmax2': rm2, 'vals': [rd.q() for _ in range(npts)]}
+        out = rd.lst(one)
+        assert rd.done()
+        return {'modes': out}
     if c['op'] == 'history':
         rd = C.Reader(ints)
         rd.z()
@@ -530,6 +574,20 @@ def run_impl(c):
             return res
         if c['op'] == 'coords_large':
             return run_large(lentil, c)
+        if c['op'] == 'entry':
+            mask = np.array(c['mask'])
+            kw = {}
+            if c['args'] in ('rho', 'both'):
+                kw['rho'] = np.full(mask.shape, 0.5)
+            if c['args'] in ('theta', 'both'):
+                kw['theta'] = np.full(mask.shape, 0.3)
+            if c['via'] == 'zernike':
+                out = lentil.zernike(mask, c['modes'][0], normalize=c['normalize'], **kw)
+            else:
+                modes = c['modes'][0] if c['via'] == 'basis_scalar' else list(c['modes'])
+                out = lentil.zernike_basis(mask, modes, vectorize=(c['via'] == 'basis_vec'), normalize=c['normalize'], **kw)
+            out = np.asarray(out, dtype=float)
+            return {'shape': list(out.shape), 'rows': out.reshape((len(c['modes']), -1)).tolist()}
         if c['op'] == 'history':
             return run_history(lentil, c)
         if c['op'] == 'seq':
@@ -833,7 +891,39 @@ def compare_seq(c, impl, model):
     return None
 
 
+def compare_entry(c, impl, model):
+    if ('err' in impl) != ('err' in model):
+        return (f'{c["via"]} with rho/theta arguments "{c["args"]}", modes {c["modes"]}: implementation '
+                f'{impl.get("err", "returned a value")}, model {model.get("err", "returned a value")}')
+    if 'err' in impl:
+        return None if impl['err'] == model['err'] else f'error kinds differ: impl {impl["err"]} model {model["err"]}'
+    m = c['mask']
+    r, cdim = len(m), len(m[0])
+    nm = len(c['modes'])
+    want = {'zernike': [r, cdim], 'basis': [nm, r, cdim], 'basis_scalar': [1, r, cdim], 'basis_vec': [nm, r * cdim]}[c['via']]
+    if impl['shape'] != want:
+        return f'{c["via"]}: result shape {impl["shape"]}, model {want}'
+    if model.get('supplied'):
+        return None
+    for k, (j, mo) in enumerate(zip(c['modes'], model['modes'])):
+        mm, n = noll_textbook(j)
+        N = math.sqrt(mo['norm2'])
+        div = math.sqrt(float(mo['rmax2'])) if mo['odd'] else 1.0
+        exp = [N * float(v) / div for v in mo['vals']]
+        tols = [TOL * (1 + abs(e)) + 256 * EPS * N * radial_cond(n, abs(mm), 1.0) for e in exp]
+        got = impl['rows'][k]
+        w = close_vec(got, exp, tols)
+        if w is not None and j % 2 == 1 and close_vec(got, [-e for e in exp], tols) is None:
+            w = None
+        if w is not None:
+            return (f'{c["via"]} (default coordinates, rho/theta arguments "{c["args"]}") mode {j} at flat index {w[0]}: '
+                    f'{w[2]!r}, model {w[3]!r}')
+    return None
+
+
 def compare(c, impl, model):
+    if c['op'] == 'entry':
+        return compare_entry(c, impl, model)
     if c['op'] == 'history':
         return compare_history(c, impl, model)
     if c['op'] == 'seq':
@@ -998,6 +1088,15 @@ def oracle(c, impl):
             if not v['mode_dev'] <= 1e-12 * (1 + float(np.max(np.abs(zj)))):
                 return f'zernike(mask, {c["j"]}) with the mask given as / called with {name} differs by {v["mode_dev"]!r}'
         return None
+    if c['op'] == 'entry':
+        if 'err' in impl or c['args'] in ('rho', 'both') or min(c['modes']) < 1:
+            return None      # refusals and caller-supplied coordinates: decided by the model comparison / the mode cases
+        sup = (np.asarray(c['mask']) != 0).astype(int).tolist()
+        rows = np.asarray(impl['rows'], dtype=float).reshape((len(c['modes']), len(sup), len(sup[0]))).tolist()
+        h = {'op': 'history', 'dtype': 'float64', 'fills': [sup], 'modes': c['modes'],
+             'steps': [{'fill': 0, 'normalize': c['normalize'], 'vectorize': False, 'call': 'basis'}]}
+        msg = oracle_history(h, {'steps': [{'basis': rows, 'ref_modes': rows}]})
+        return (f'{c["via"]} with default coordinates: ' + msg) if msg else None
     if c['op'] == 'coords_large':
         if 'err' in impl:
             return f'zernike_coordinates / zernike raised {impl["err"]} on a {c["shape"]} {c["dtype"]} mask'
